@@ -17,7 +17,7 @@ pub enum Ev {
     DeqTask { pid: int }, DeqStop, DeqRestart, DeqNone, StreamItem { k: int }, StreamEnd,
     RunDone { pid: int, gid: int }, RunAbandoned { pid: int }, TimersCleared, Recreated { gid: int }, Notify,
     // events of client / timer tasks (C01, C02, C09, C10, C16); they do not move the lifecycle automaton of an actor task
-    Slept { d: int }, Upgraded { chan: int }, Enq { chan: int, pid: int, force: bool }, BgRun { code: int }, Handled { mid: int }, OsSend { slot: int, val: int }, OsRecv { slot: int },
+    Slept { d: int }, Upgraded { chan: int }, Enq { chan: int, pid: int, force: bool }, BgRun { code: int }, Handled { mid: int }, OsSend { slot: int, val: int }, OsRecv { slot: int }, Pop { chan: int, pid: int }, PopEnd { chan: int },
 }
 pub open spec fn started_phase_ok(s: Lc, gid: int) -> bool { (s.ph is Fresh || s.ph is RestartStopped) && gid == s.gid }
 pub open spec fn started_timers_ok(s: Lc) -> bool { !(s.ph is RestartStopped && s.timers_live) }
@@ -40,7 +40,7 @@ pub open spec fn allowed(s: Lc, e: Ev) -> bool {
         Ev::Recreated { .. } => s.ph is RestartStopped,
         // C04: termination is announced only after `stopped` has returned
         Ev::Notify => s.ph is Stopped,
-        Ev::Slept { .. } | Ev::Upgraded { .. } | Ev::Enq { .. } | Ev::BgRun { .. } | Ev::Handled { .. } | Ev::OsSend { .. } | Ev::OsRecv { .. } => true,
+        Ev::Slept { .. } | Ev::Upgraded { .. } | Ev::Enq { .. } | Ev::BgRun { .. } | Ev::Handled { .. } | Ev::OsSend { .. } | Ev::OsRecv { .. } | Ev::Pop { .. } | Ev::PopEnd { .. } => true,
     }
 }
 pub open spec fn step(s: Lc, e: Ev) -> Lc {
@@ -56,6 +56,6 @@ pub open spec fn step(s: Lc, e: Ev) -> Lc {
         Ev::TimersCleared => Lc { timers_live: false, ..s },
         Ev::Recreated { gid } => Lc { gid: gid, recreated: s.recreated + 1, ..s },
         Ev::Notify => Lc { ph: Ph::Done, ..s },
-        Ev::Slept { .. } | Ev::Upgraded { .. } | Ev::Enq { .. } | Ev::BgRun { .. } | Ev::Handled { .. } | Ev::OsSend { .. } | Ev::OsRecv { .. } => s,
+        Ev::Slept { .. } | Ev::Upgraded { .. } | Ev::Enq { .. } | Ev::BgRun { .. } | Ev::Handled { .. } | Ev::OsSend { .. } | Ev::OsRecv { .. } | Ev::Pop { .. } | Ev::PopEnd { .. } => s,
     }
 }
